@@ -124,8 +124,10 @@ impl Tunnel {
                 let metrics = context.metrics.clone();
                 let protocol = self.downstream.protocol();
                 move |direction, n| match direction {
-                    pipe::SimplexDirection::Incoming => metrics.add_inbound_bytes(protocol, n),
-                    pipe::SimplexDirection::Outgoing => metrics.add_outbound_bytes(protocol, n),
+                    // Incoming: peer -> client, i.e. downloaded by the client (outbound traffic);
+                    // Outgoing: client -> peer, i.e. uploaded by the client (inbound traffic)
+                    pipe::SimplexDirection::Incoming => metrics.add_outbound_bytes(protocol, n),
+                    pipe::SimplexDirection::Outgoing => metrics.add_inbound_bytes(protocol, n),
                 }
             };
 
